@@ -432,6 +432,9 @@ func c05Fields(m *c05Msg) []string {
 		if len(m.validators) > 1 {
 			f = append(f, "swap-validators")
 		}
+		if len(m.validators) > 1 && len(m.powers) == len(m.validators) {
+			f = append(f, "swap-members")
+		}
 		return f
 	case "slc", "usc":
 		return []string{"turnstone", "relayer", "id", "contract", "payload", "fee-relayer", "fee-community", "fee-security", "sender", "deadline"}
@@ -479,6 +482,15 @@ func c05Mutate(r *Rec, m *c05Msg, field string) bool {
 			return false
 		}
 		m.validators[i], m.validators[i+1] = m.validators[i+1], m.validators[i]
+	case "swap-members":
+		// two neighbouring members change places, address AND power: the remote contract is handed the arrays in the order
+		// listed and checks them against the checkpoint in that order, so the order of the members is a delivered value
+		i := r.Rng.Intn(len(m.validators) - 1)
+		if common.HexToAddress(m.validators[i]) == common.HexToAddress(m.validators[i+1]) && m.powers[i] == m.powers[i+1] {
+			return false
+		}
+		m.validators[i], m.validators[i+1] = m.validators[i+1], m.validators[i]
+		m.powers[i], m.powers[i+1] = m.powers[i+1], m.powers[i]
 	case "power":
 		i := r.Rng.Intn(len(m.powers))
 		m.powers[i] = c05FreshU64(r, m.powers[i])
